@@ -139,6 +139,17 @@ def tlc(module, cfg, env=None, workers=None, timeout=3600, simulate=None, depth=
     return res
 
 
+def expect_violation(module, cfg, invariant, **kw):
+    """A named-fault configuration of a model: TLC must report `invariant` violated (the invariants have teeth).
+    Returns the TlcResult; raises MachineryError when the fault goes unnoticed."""
+    res = tlc(module, cfg, **kw)
+    if res.violation is None or invariant not in res.violation:
+        raise MachineryError("fault configuration %s of %s.tla does not violate %s:\n%s" % (cfg, module, invariant, res.violation or "no violation"))
+    res.ok = True
+    res.expected_violation = invariant
+    return res
+
+
 def _parse_tlc(res):
     for i, l in enumerate(res.lines):
         m = re.match(r"(\d+) states generated, (\d+) distinct states found", l)
